@@ -180,8 +180,8 @@ func judge(n *node, out *outcome) *verdict {
 	// A lying block is certainly sitting in the node's request slot for its height - and the slot is only freed by
 	// removing (and stopping) the sender - if nothing usable for that height was delivered earlier: otherwise the
 	// node may already have verified with the earlier block and simply ignores the late one.
-	canonBefore := map[int64]bool{}      // a canonical block for the height was delivered earlier
-	goodCommitBefore := map[int64]bool{} // a block for the height whose LastCommit is genuine was delivered earlier
+	canonBefore := map[int64]bool{}               // a canonical block for the height was delivered earlier
+	goodCommitBefore := map[int64]bool{}          // a block for the height whose LastCommit is genuine was delivered earlier
 	obligationsApply := out.wall < 25*time.Second // the pool silently re-requests after 30 s
 	stopsApply := sc.Reactor != "v2"              // v2's public constructor wires a recording-only behaviour reporter: it never stops a peer
 	for _, dl := range n.deliveries {
@@ -250,6 +250,10 @@ func judge(n *node, out *outcome) *verdict {
 		}
 	}
 	v.liesFirst = len(firstAt)
+	// (3b) who is blamed for a failed pair
+	for _, m := range n.blameViolations() {
+		bad("%s", m)
+	}
 	if sc.Family == "push" {
 		// every block the node asked for was answered faithfully, so no verification can fail: whoever is stopped
 		// besides the pushers is being blamed for blocks it did not send
@@ -311,7 +315,11 @@ func judge(n *node, out *outcome) *verdict {
 	// The reactor hands over when pool.height >= maxPeerHeight-1, i.e. with the store at tip-2 or better: tip-1 when
 	// the sync was already done at the 1 s tick (the comment in IsCaughtUp: block H needs H+1), tip-2 when the tick
 	// falls between the last two blocks. Consensus fetches the rest; both are "reached the tip" for block sync.
-	if top < n.tip-2 {
+	need := n.tip - 2
+	if need < sc.Initial {
+		need = 0 // a chain of one or two blocks: nothing has to be applied before the hand-over
+	}
+	if top < need {
 		if n.handoverHonest {
 			bad("handed over to consensus at height %d although an honest peer with tip %d was connected", top, n.tip)
 		} else {
@@ -347,16 +355,33 @@ func describeScenario(sc *scenario) string {
 
 func (n *node) history() string {
 	var sb strings.Builder
-	for _, d := range n.deliveries {
+	const maxDeliveries, maxRemovals, maxPeers = 60, 12, 14
+	for i, d := range n.deliveries {
+		if i == maxDeliveries {
+			fmt.Fprintf(&sb, "  ... %d more deliveries\n", len(n.deliveries)-maxDeliveries)
+			break
+		}
 		fmt.Fprintf(&sb, "  #%d peer%d(%s) -> %s h=%d (store at %d)\n", d.Seq, d.Peer, d.Role, d.Kind, d.Height, d.StoreHeight)
 	}
+	byID := map[string]int{}
+	for i, d := range n.doubles {
+		byID[string(d.ID())] = i
+	}
 	n.wrap.mu.Lock()
-	for _, r := range n.wrap.removals {
-		fmt.Fprintf(&sb, "  removed %s: %s\n", r.ID, r.Reason)
+	for i, r := range n.wrap.removals {
+		if i == maxRemovals {
+			fmt.Fprintf(&sb, "  ... %d more removals\n", len(n.wrap.removals)-maxRemovals)
+			break
+		}
+		fmt.Fprintf(&sb, "  removed peer%d (pool at %d, after #%d): %s\n", byID[string(r.ID)], r.Pool, r.Seq, r.Reason)
 	}
 	n.wrap.mu.Unlock()
 	for i, d := range n.doubles {
-		fmt.Fprintf(&sb, "  peer%d = %s role=%s stopped=%v\n", i, d.ID(), d.spec.Role, d.isStopped())
+		if i == maxPeers {
+			fmt.Fprintf(&sb, "  ... %d more peers (reconnections of honest peers)\n", len(n.doubles)-maxPeers)
+			break
+		}
+		fmt.Fprintf(&sb, "  peer%d role=%s status=%s stopped=%v\n", i, d.spec.Role, d.spec.Status, d.isStopped())
 	}
 	return sb.String()
 }
@@ -431,7 +456,9 @@ func syncOnce(t failer, test string, sc *scenario, strict bool) *verdict {
 	}
 
 	report := func(kind string, msgs []string) string {
-		return fmt.Sprintf("%s\n  %s\nscenario: %s\nhistory:\n%s", kind, strings.Join(msgs, "\n  "), describeScenario(sc), hist)
+		// the verdict comes last as well: the driver shows the tail of a failing shard's output
+		return fmt.Sprintf("%s\n  %s\nscenario: %s\nhistory:\n%sverdict (repeated): %s\n  %s", kind, strings.Join(msgs, "\n  "), describeScenario(sc), hist,
+			kind, strings.Join(msgs, "\n  "))
 	}
 	if len(v.violations) > 0 {
 		t.Fatalf("%s", report("C13 violated:", append(v.violations, v.seenCommit...)))
@@ -520,7 +547,6 @@ func TestSyncV0(t *testing.T) {
 		t.Fatalf("VERIF-INFRA: %s", m)
 	}
 }
-
 
 // ---- regression: findingSeenCommit (no generator involved) ----
 
@@ -645,6 +671,83 @@ func TestUnsolicitedPush(t *testing.T) {
 			v := syncOnce(t, "TestUnsolicitedPush", pushScenario(c.kind, c.announces), true)
 			if v.liesFirst == 0 {
 				t.Fatalf("VERIF-INFRA: no pushed block reached the node ahead of the honest answer")
+			}
+		})
+	}
+	if m := infra(); m != "" {
+		t.Fatalf("VERIF-INFRA: %s", m)
+	}
+}
+
+// TestShortSyncHandover (fixed scenarios, no generator): all-honest syncs of chains with 1, 2 and 3 blocks, i.e. a
+// hand-over to consensus after 0, 1 and 2 applied blocks, for initial height 1 and 7.
+func TestShortSyncHandover(t *testing.T) {
+	for _, initial := range []int64{1, 7} {
+		for _, blocks := range []int{1, 2, 3} {
+			initial, blocks := initial, blocks
+			t.Run(fmt.Sprintf("initial=%d/blocks=%d", initial, blocks), func(t *testing.T) {
+				sc := &scenario{Reactor: "v0", Initial: initial, Keys: []int{0, 1, 2, 3}, Powers: []int64{10, 10, 10, 10}}
+				honest := peerSpec{Role: "honest", Status: "true"}
+				for i := 0; i < blocks; i++ {
+					sc.Heights = append(sc.Heights, heightSpec{Txs: []string{fmt.Sprintf("k%d=v", i)}, FlagPref: []int{0, 0, 0, 2}})
+					honest.Resp = append(honest.Resp, respSpec{Kind: "right"})
+				}
+				sc.Peers = []peerSpec{honest}
+				v := syncOnce(t, "TestShortSyncHandover", sc, true)
+				want := initial + int64(blocks) - 2 // block sync applies up to tip-1
+				if blocks == 1 {
+					want = 0
+				}
+				if v.final != want {
+					t.Fatalf("VERIF-INFRA: expected the store at %d, it is at %d", want, v.final)
+				}
+			})
+		}
+	}
+	if m := infra(); m != "" {
+		t.Fatalf("VERIF-INFRA: %s", m)
+	}
+}
+
+// narrowScenario: eight blocks; peer A has blocks 1..at-1 only, peer B has at+1..8 only (pruned below), the liar
+// advertises exactly the one height `at` and serves `kind` for it; a peer with the whole chain connects 40 ticks later.
+// So block `at` first comes from the liar and both its neighbours from peers that never lie.
+func narrowScenario(kind string, at int) *scenario {
+	sc := &scenario{Reactor: "v0", Initial: 1, Keys: []int{0, 1, 2, 3}, Powers: []int64{10, 10, 10, 10}}
+	const n = 8
+	for i := 0; i < n; i++ {
+		sc.Heights = append(sc.Heights, heightSpec{Txs: []string{fmt.Sprintf("k%d=v", i)}})
+	}
+	mk := func(role, status string) peerSpec {
+		ps := peerSpec{Role: role, Status: status, Beyond: respSpec{Kind: "fabricate"}}
+		for i := 0; i < n; i++ {
+			ps.Resp = append(ps.Resp, respSpec{Kind: "right"})
+		}
+		return ps
+	}
+	a := mk("partial", "stale") // [1, at-1]: tip - StatusArg = at-1 (heights are index+1)
+	a.StatusArg = n - (at)
+	b := mk("partial", "stale") // [at+1, 8]
+	b.StatusArg, b.BaseArg = 0, at+1
+	liar := mk("liar", "narrow")
+	liar.StatusArg = at
+	liar.Resp[at] = respSpec{Kind: kind, Arg: 1}
+	full := mk("honest", "true")
+	full.JoinAt = 40
+	sc.Peers = []peerSpec{a, b, liar, full}
+	return sc
+}
+
+// TestNarrowRangeLiar (fixed scenarios): a peer that advertises a single height and lies about it must be the one
+// that is dropped, whether its block is the first or the second of the pair that fails, and the height must be
+// fetched again elsewhere.
+func TestNarrowRangeLiar(t *testing.T) {
+	for _, kind := range []string{"tx-tamper", "commit-forged", "commit-padded-sig"} {
+		kind := kind
+		t.Run(kind, func(t *testing.T) {
+			v := syncOnce(t, "TestNarrowRangeLiar", narrowScenario(kind, 4), true)
+			if v.liesFirst == 0 {
+				t.Fatalf("VERIF-INFRA: the lie did not reach the node first")
 			}
 		})
 	}
